@@ -9,9 +9,10 @@ import FV.EmplaceFlexContent
 sequence `items`: one entry per item, giving the offset of its slot and the item's image (its first `size()` bytes). A slice
 validates as a FlexVec iff it is such a chain (`C12_valid_iff_sequence`). Every operation maps chains to chains and acts on the
 list as the corresponding sequence operation (`C12_truncate`, `C12_pop`, `C12_push`), hence so does every finite history
-(`C12_history`). What the theorems leave to the correspondence check: that the *content* of the appended item is the one the
-initialiser specifies (the image is whatever the item's emplacer wrote; `C03`), and in-place edits of items through nested
-operations (their frame is `C14_item_edit_frame`; the harness compares every step with an abstract `Vec` of item contents). -/
+(`C12_history`). The content of the appended item is the one the initialiser specifies (`C12_pushed_item_content`); when a push
+is accepted (`C12_push_accepts_iff`) and what an in-place edit of one item does to the sequence (`C12_item_edit`; its byte frame
+is `C14_item_edit_frame`) are in `Props/C12Push.lean`; the harness compares every step of generated histories, nested edits
+included, with an abstract `Vec` of item contents. -/
 namespace FV.Props
 open FV
 
